@@ -55,6 +55,12 @@ CHECKS.update({
          "trusted base: the happens-before tracker in dsim/src/hb.rs (not a full C11 model: no fences, no consume, SeqCst treated as AcqRel), the two tracer calls placed next to the raw-pointer dereferences; Miri for the second opinion"),
 })
 
+CHECKS.update({
+ "C03": ("sinkfault", "E1", "5.1", "seeded fault injection on the client's sink (accept / refuse with any io::ErrorKind per emit, single-fault sweep over every emit position of sampled histories) across sequences of calls on one client",
+         "Seeded exploration over all 22 (kind x value type) entry points + incr/decr x 3 call forms x valid/invalid values (Duration overflow boundary in u128 arithmetic of the harness, alone or at any index of a packed list) x sink answers: one emit iff valid, Ok(metric) only with an accepted emit of exactly that text, the sink's own io::Error carried as source, InvalidInput for rejected values, quiet form never fails and calls the handler exactly once per failure.",
+         "the client's sink and error handler are scripted/recording; the text of the line is not compared with a formatter model (C01/C04 are not applicable to this technique); single task"),
+})
+
 def main():
     hooks_commits = subprocess.run("git -C /repo log --format=%H --grep='^verif hooks'", shell=True, capture_output=True, text=True).stdout.split()
     checks = []
@@ -68,7 +74,7 @@ def main():
             "replay_cmd_template": f"./check {pid} --replay {{path}}",
             "engine": eng,
             "level_claimed": {"category": "exploration", "text": text, "design_ref": f"DESIGN.md section {ref}"},
-            "level_note": (note + "; single task, no scheduler involved; sampling, not proof") if eng == "linebuf" else (note + "; " + SIMNOTE),
+            "level_note": (note + "; single task, no scheduler involved; sampling, not proof") if eng in ("linebuf", "sinkfault") else (note + "; " + SIMNOTE),
             "technique": "deterministic simulation with fault injection: " + tech,
         })
     claimed = set(CHECKS)
@@ -92,6 +98,7 @@ def main():
             {"name": "queue", "path": "ws/engines/src/e3.rs", "serves_properties": ["C08", "C09", "C10", "C11", "C15", "C16"], "kind_free_text": "E3: the real QueuingMetricSink (worker thread, sentinel respawn, crossbeam channel, counters) as simulated tasks against a scripted wrapped sink"},
             {"name": "sockets", "path": "ws/engines/src/e5.rs", "serves_properties": ["C12", "C13", "C14"], "kind_free_text": "E5: socket-backed sinks over simulated datagram sockets, 1-4 emitter tasks sharing a sink / client / queuing wrapper"},
             {"name": "holder", "path": "ws/engines/src/e6.rs", "serves_properties": ["C18"], "kind_free_text": "E6: SingletonHolder under simulated tasks with a happens-before tracker; miri-c18/ is the Miri second opinion"},
+            {"name": "sinkfault", "path": "ws/engines/src/e1.rs", "serves_properties": ["C03"], "kind_free_text": "E1: StatsdClient over a scripted sink with a per-emit fault plan"},
             {"name": "linebuf", "path": "ws/engines/src/e2.rs", "serves_properties": ["C05", "C06", "C07", "C19"], "kind_free_text": "E2: histories of emit/flush/drop on the line-buffering writer and the buffered sinks with a per-write fault plan; reference model in ws/engines/src/linemodel.rs"},
         ],
         "checks": checks,
